@@ -148,6 +148,8 @@ def sib5(ctx, pid):
             probs.append("bit clear: sibling `%s`, next `%s`; expected sibling = right half, next = left half" % (tstr(sib)[-12:], tstr(nxt)[-12:]))
         # bit operands: path = to_int(key); first bit is 1 << (depth - 1), then >>= 1
         a, b = tt[2], tt[3]
+        if b == ("call", "ext:eth_utils.to_int", (("p", "key"),), ()):
+            a, b = b, a  # `&` is commutative
         if a != ("call", "ext:eth_utils.to_int", (("p", "key"),), ()):
             probs.append("the tested path is `%s`, not to_int(key)" % tstr(a)[:40])
         want_tb = ("bin", "<<", C(1), ("bin", "-", ("attr", ("self",), "depth"), C(1)))
@@ -178,6 +180,8 @@ def sib5(ctx, pid):
                 continue
             seen += 1
             tt, pp = bit
+            if tt[3] == ("call", "ext:eth_utils.to_int", (("p", "key"),), ()):
+                tt = (tt[0], tt[1], tt[3], tt[2])  # `&` is commutative
             if tt[3] != C(1):
                 probs.append("first tested bit is `%s`, expected 1 (LSB first, leaf -> root)" % tstr(tt[3])[:40])
             if st.env.get("target_bit") != ("bin", "<<", C(1), C(1)) and st.env.get("target_bit") != C(2):
@@ -365,8 +369,8 @@ def ord6(ctx, pid):
                     probs.append(("EFF5", "branch_point is `%s`; expected (branch_size - 1) - bit with bit scanning reversed(range(branch_size))" % tstr(bp)[:70]))
                 else:
                     bit = bp[3]
-                    want = (">", ("bin", "&", pd, ("bin", "<<", C(1), bit)), C(0))
-                    if not any(rel_norm(t, pol) == want for t, pol, _ in st.log):
+                    want = (eng.mk_bin("&", pd, ("bin", "<<", C(1), bit)), True)
+                    if not any(truth_norm(t, pol) == want for t, pol, _ in st.log):
                         probs.append(("EFF5", "the scanned bit is not tested as path_diff & (1 << bit) > 0"))
         else:
             if effs:
